@@ -281,6 +281,9 @@ func rulesC11(e *Engine, r *Report) {
 		ok := len(o) == 1 && len(l) == 1 && pat(al+"#0").MatchString(o[0]) && pat(al+"#1").MatchString(l[0]) && strings.TrimSuffix(o[0], "#0") == strings.TrimSuffix(l[0], "#1")
 		r.Check(ok, "R11.4", "queue.(*Tagged).Pop: chunk (offset, length) ← the two results of one allocate call", e.Pos(fn.Pos()), "the chunk's extent is not what allocate handed out", 2)
 	}
+	// ---------------------------------------------------------------- R11.6
+	r.Rule("R11.6", "a resumed file is tiled from exactly the ranges the receiver lacks: the gap scan in recover() sorts the receiver's part list by Beg, moves its position to the END of every part it examines (never to its Beg - the part itself is held), ends a gap at the next part's Beg and the tail at the file size - shared with R07.7; recoverFile.Allocate then hands out exactly those ranges (R11.1)")
+	e.checkGapScan(r, "R11.6")
 }
 
 // checkRecoverAllocate: the allocator of a resumed file hands out exactly its
